@@ -805,6 +805,197 @@ pub fn async_ring_accounting(rounds: u64) -> LiveResult {
     LiveResult { scenario: "async_ring_accounting", rounds, violations, detail }
 }
 
+/// C11: `clear()` while another thread still holds a `ValueRef` (a read guard on one shard of the
+/// store). Once `clear()` has returned — however long it had to wait for the reader — nothing inserted
+/// before it is retrievable and `len()` is 0. Sound for every timing: no insert follows the clear.
+pub fn clear_held_ref(rounds: u64) -> LiveResult {
+    mark_client();
+    let mut violations = 0u64;
+    let mut detail = String::new();
+    for r in 0..rounds {
+        let c = CacheBuilder::<u64, u64>::new(256, 1_000_000)
+            .set_key_builder(SplitKeyBuilder)
+            .set_coster(SlowCoster { micros: 0 })
+            .set_update_validator(TableValidator(0))
+            .set_callback(RecCallback::default())
+            .set_hasher(SlowWorkerHasher { micros: 0 })
+            .set_buffer_size(256)
+            .set_buffer_items(64)
+            .set_metrics(true)
+            .set_ignore_internal_cost(true)
+            .set_cleanup_duration(Duration::from_secs(3600))
+            .finalize()
+            .expect("cache");
+        // keys spread over several shards; `held` shares its shard (index mod 256) with held + 256
+        let held = 1 + (r % 7);
+        let keys: Vec<u64> = vec![held, held + 256, held + 512, 100 + r % 50, 3, 200];
+        for k in &keys {
+            let _ = c.insert(mk_key(*k, 0), *k, 1);
+        }
+        let _ = c.wait();
+        let holding = Arc::new(AtomicBool::new(false));
+        let reader = {
+            let c = c.clone();
+            let holding = holding.clone();
+            std::thread::spawn(move || {
+                let guard = c.get(&mk_key(held, 0));
+                holding.store(true, Ordering::SeqCst);
+                std::thread::sleep(Duration::from_millis(60 + (r % 3) * 40));
+                drop(guard);
+            })
+        };
+        let t0 = Instant::now();
+        while !holding.load(Ordering::SeqCst) && t0.elapsed() < Duration::from_secs(5) {
+            std::thread::yield_now();
+        }
+        let cleared = c.clear().is_ok();
+        let len = c.len();
+        let seen: Vec<u64> = keys.iter().copied().filter(|k| c.get(&mk_key(*k, 0)).is_some()).collect();
+        let _ = reader.join();
+        let _ = c.close();
+        if cleared && (len != 0 || !seen.is_empty()) {
+            violations += 1;
+            if detail.is_empty() {
+                detail = format!(
+                    "Cache round {}: keys {:?} resident, another thread holds the ValueRef of key {} while clear() is called; clear() returned Ok, yet len() = {} and keys {:?} are still retrievable",
+                    r, keys, held, len, seen
+                );
+            }
+        }
+    }
+    LiveResult { scenario: "clear_held_ref", rounds, violations, detail }
+}
+
+/// C20 (and C05's "every cleanup interval"): a cache built with a very short cleanup interval (down to
+/// one nanosecond) still completes a small workload: inserts with TTL, lookups, a remove, `wait()`,
+/// `clear()`, `close()`. A watchdog bounds each phase; a phase that does not complete is a violation.
+pub fn tiny_cleanup_interval(rounds: u64) -> LiveResult {
+    mark_client();
+    let mut violations = 0u64;
+    let mut detail = String::new();
+    for r in 0..rounds {
+        let nanos = [1u64, 7, 40, 100, 1000, 50_000][(r % 6) as usize];
+        let done = Arc::new(AtomicU64::new(0));
+        let h = {
+            let done = done.clone();
+            std::thread::spawn(move || {
+                let c = CacheBuilder::<u64, u64>::new(256, 1000)
+                    .set_key_builder(SplitKeyBuilder)
+                    .set_coster(SlowCoster { micros: 0 })
+                    .set_update_validator(TableValidator(0))
+                    .set_callback(RecCallback::default())
+                    .set_hasher(SlowWorkerHasher { micros: 0 })
+                    .set_buffer_size(64)
+                    .set_buffer_items(8)
+                    .set_metrics(true)
+                    .set_ignore_internal_cost(true)
+                    .set_cleanup_duration(Duration::from_nanos(nanos))
+                    .finalize()
+                    .expect("cache");
+                for k in 0..20u64 {
+                    let _ = c.insert_with_ttl(mk_key(k, 0), k, 1, if k % 2 == 0 { Duration::from_millis(5) } else { Duration::ZERO });
+                }
+                done.store(1, Ordering::SeqCst);
+                let _ = c.wait();
+                done.store(2, Ordering::SeqCst);
+                for k in 0..20u64 {
+                    let _ = c.get(&mk_key(k, 0));
+                }
+                let _ = c.try_remove(&mk_key(3, 0));
+                let _ = c.wait();
+                done.store(3, Ordering::SeqCst);
+                let _ = c.clear();
+                done.store(4, Ordering::SeqCst);
+                let _ = c.close();
+                done.store(5, Ordering::SeqCst);
+            })
+        };
+        let t0 = Instant::now();
+        while done.load(Ordering::SeqCst) < 5 && t0.elapsed() < Duration::from_secs(20) {
+            std::thread::sleep(Duration::from_millis(2));
+        }
+        let phase = done.load(Ordering::SeqCst);
+        if phase < 5 {
+            violations += 1;
+            if detail.is_empty() {
+                let what = ["the inserts", "wait()", "the lookups, remove() and wait()", "clear()", "close()"][phase as usize];
+                detail = format!("Cache built with set_cleanup_duration({} ns): {} did not complete within 20 s", nanos, what);
+            }
+            // the stuck thread is left behind; stop here
+            break;
+        }
+        let _ = h.join();
+    }
+    LiveResult { scenario: "tiny_cleanup_interval", rounds, violations, detail }
+}
+
+/// C05: the cleanup interval given to the builder is the one in effect, whatever the order of the
+/// builder calls. The interval is set to 50 ms *before* the type-changing setters; an entry with a
+/// 300 ms TTL must be reclaimed (len() drops, on_evict fires) within one bucket width (1 s) plus one
+/// interval after its deadline — checked 0.9 s after that bound, and retried twice before it counts
+/// (a stalled machine must not raise an alarm; the default 2 s interval misses the bound by up to 1.95 s
+/// whenever the deadline's second does not end on one of its ticks, which the rounds' phases vary).
+pub fn cleanup_interval_honoured(rounds: u64) -> LiveResult {
+    mark_client();
+    let mut violations = 0u64;
+    let mut detail = String::new();
+    for r in 0..rounds {
+        let mut late = 0;
+        let mut last = String::new();
+        for attempt in 0..3u64 {
+            let cb = RecCallback::default();
+            let c = CacheBuilder::<u64, u64>::new(256, 1000)
+                .set_cleanup_duration(Duration::from_millis(50))
+                .set_buffer_size(64)
+                .set_buffer_items(8)
+                .set_ignore_internal_cost(true)
+                .set_key_builder(SplitKeyBuilder)
+                .set_coster(SlowCoster { micros: 0 })
+                .set_update_validator(TableValidator(0))
+                .set_hasher(SlowWorkerHasher { micros: 0 })
+                .set_callback(cb.clone())
+                .finalize()
+                .expect("cache");
+            let built = Instant::now();
+            // place the deadline half a second before the first whole second B that follows "build + 2 s":
+            // the entry's bucket becomes due at B, so a 50 ms ticker reclaims it by B + 50 ms, while the
+            // ticks of a 2 s interval (build + 2 s: too early, build + 4 s: at least a second late) do not
+            let w = std::time::SystemTime::now().duration_since(std::time::UNIX_EPOCH).unwrap();
+            let w_ns = w.as_nanos() as u64;
+            let b_ns = ((w_ns + 2_000_000_000) / 1_000_000_000 + 1) * 1_000_000_000;
+            let insert_in = b_ns - 800_000_000 - w_ns;
+            std::thread::sleep(Duration::from_nanos(insert_in));
+            let _ = c.insert_with_ttl(mk_key(1, 0), 1, 1, Duration::from_millis(300));
+            let _ = c.insert(mk_key(2, 0), 2, 1);
+            let _ = c.wait();
+            let inserted_at = built.elapsed();
+            let _ = (r, attempt);
+            // until B + interval + slack
+            let now_ns = std::time::SystemTime::now().duration_since(std::time::UNIX_EPOCH).unwrap().as_nanos() as u64;
+            std::thread::sleep(Duration::from_nanos((b_ns + 50_000_000 + 900_000_000).saturating_sub(now_ns)));
+            let len = c.len();
+            let evicted = cb.0.lock().unwrap().iter().filter(|e| matches!(e, crate::cache::CbEv::Evict(..))).count();
+            let _ = c.close();
+            if len > 1 || evicted == 0 {
+                late += 1;
+                last = format!(
+                    "builder: set_cleanup_duration(50 ms) .. set_callback(cb); entry inserted {:?} after the build with TTL 300 ms, so that its expiry bucket becomes due at a whole second B: at B + 50 ms interval + 0.9 s len() = {} and on_evict was called {} times",
+                    inserted_at, len, evicted
+                );
+            } else {
+                break;
+            }
+        }
+        if late == 3 {
+            violations += 1;
+            if detail.is_empty() {
+                detail = last;
+            }
+        }
+    }
+    LiveResult { scenario: "cleanup_interval_honoured", rounds, violations, detail }
+}
+
 /// C03 / C05: the periodic sweep racing TTL refreshes, with real time. Many keys share a deadline;
 /// while their bucket is being swept some of them are re-inserted with a long TTL. Afterwards every
 /// refreshed key is still retrievable (the sweep never removes an entry that has not expired) and
